@@ -67,7 +67,7 @@ func c05(c *Ctx) {
 	c.R.Rule = "abstract case = (JSON-mapping feature) x context {top-level, child of un-annotated parent, repeated element, map value, plain oneof variant, flatten child, discriminated-oneof variant nested/flattened, sibling of an unwrap map, root-unwrap element} x direction {request accepted, response sent} x value class; " +
 		"non-trivial = real HTTP to the generated Go server: response body compared as a JSON tree, field by field, with the independent reference model of the documented mapping; request body = model.Encode(M) must reach the handler as norm(M)"
 	c.R.Assume("reference model internal/model/jsonmap (written from annotations.proto comments, CLAUDE.md and docs/json-protobuf-compatibility.md); un-annotated fields: protojson is the definition")
-	feats := corpus.Features() // every feature in both tiers; quick thins values and contexts
+	feats := append(corpus.Features(), corpus.FeaturesNested(c.Thorough(), int(c.Seed))...) // every feature in both tiers; quick thins values and contexts
 	ctxs := corpus.Contexts
 	fl, err := buildFeatureLab(c, "c05", feats, []variant{{Tag: "s", Plugins: []string{"go-http"}}}, true, ctxs, true)
 	if err != nil {
